@@ -53,6 +53,8 @@ func init() {
 			"Operators: every (thorough) / 64 sampled (quick) truncation lengths; every declared length/count/offset/type field set to a boundary table; every-offset u8/u16/u32 boundary sweep of the small binary seeds; " +
 			"protobuf wire-level operators on every field (delete, duplicate, length prefix, wire type, field number, value, groups, deep nesting); re-signed golden-measurement variants with each optional sub-message removed or degenerate; " +
 			"directed RIM-locator shapes (empty, GUID only, GUID + terminator only, 16..21 bytes, odd lengths, terminator in the middle / missing, unpaired surrogates, path-like names, 0/1-byte URI and device-path locators, undefined locator types) handed to exel.Locate with every locator type and embedded with consistent length fields in an otherwise genuine SP800-155 payload, event data, event and event log; " +
+			"PEM-bundle grammar: re-signed endorsements whose sev_snp.ca_bundle (and ca_bundle, cert) holds 0..3 well-formed CERTIFICATE blocks with bytes that are not a complete block before, between and after them (nothing, white space, text, every kind of partial block, blocks of other types, a whole further block, truncations of a further block: 12 lengths quick / every length thorough), in three carriers, with the options under which policy derivation reaches the bundle; " +
+			"signature-dispatched event payloads: event data = 16-byte signature + payload for every signature of a dictionary (the TCG PC Client Platform Firmware Profile signatures, every 16-byte constant found in the eventlog sources of the tree under test, unknown ones) x 32 payload lengths from 0 (every small boundary) x 6 fills, with consistent size fields, as event data, TCG_PCR_EVENT2, header event, and inside a whole log in event and in header position; " +
 			"bit flips; stacked random edits; random bytes and patterns; textual re-encodings; inputs near 1 MiB. Monitor: core.Guard per call: panic, thread CPU > 2 s + 1 s/MiB, allocated bytes > 64 MiB + 4096*len(input); " +
 			"process-fatal failures (out of memory under ulimit -v 6 GiB, stack overflow) are attributed by the supervisor to the case logged before the call. " +
 			"non-trivial = a call on a non-genuine input that returned; distinct cells = (seed, operator class, entry point, returned ok|error)",
@@ -64,6 +66,7 @@ func init() {
 			"EfiVarFSReader.ReadVariable is driven only through exel.Locate (the function applied to untrusted locator bytes)",
 			"the genuine endorsement is signed with fixed embedded test keys and a deterministic salt stream so that every input is a function of (seed, case index) only",
 			"InspectMask is exercised with a fixed list of well-formed field paths; hostile paths belong to C19",
+			"the event-signature dictionary is extended with the 16-byte constants of <tree under test>/eventlog and /extract/eventlog (the replace target recorded in the worker's build info), so the case list is a function of (seed, tier, tree); when the sources cannot be read only the specification's signatures are used (see notes)",
 		},
 		ShardsQuick: 16, ShardsThor: 16, TimeoutS: 600, TimeoutThor: 3000, UlimitVKB: ulimitVKiB, Run: run,
 	})
@@ -438,6 +441,19 @@ func (w *world) specs(c *core.Ctx) []spec {
 	for k := 0; k < nBig; k++ {
 		add(spec{seed: -1, op: "big", a: k, cross: true})
 	}
+	// grammar-directed cases (appended, so that the indices of the cases above do not move)
+	for k := range w.pemCases {
+		for carrier := range carrierNames {
+			if thorough || k%len(carrierNames) == carrier {
+				add(spec{seed: -1, op: "pem", a: k, b: carrier, cross: k%8 == 0})
+			}
+		}
+	}
+	for k := range w.sigCases {
+		for carrier := range sigCarriers {
+			add(spec{seed: -1, op: "sigpayload", a: k, b: carrier, cross: k%16 == 0 && carrier == 0})
+		}
+	}
 	return out
 }
 
@@ -550,6 +566,12 @@ func (w *world) materialize(s spec, r *rand.Rand) (b []byte, gname, class, sname
 			shape = shape[:k]
 		}
 		return b, gname, "locator-shape", "locshape-" + shape + "-in-" + locCarriers[s.b].name, kind
+	case "pem":
+		b, gname, sname, kind := w.pemInput(s.a, s.b)
+		return b, gname, "pem-bundle", sname, kind
+	case "sigpayload":
+		b, gname, sname, kind := w.sigInput(s.a, s.b, r)
+		return b, gname, "signature-payload", sname, kind
 	case "big":
 		b, name, k := w.big(s.a)
 		return b, "big/" + name, "big", "big-" + name, k
@@ -606,6 +628,15 @@ func run(c *core.Ctx) {
 	w.fresh = c.SkipTo == 0
 	w.scratch()
 	defer w.cleanup()
+	w.mkPemCases(c.Thorough())
+	w.mkSigCases()
+	if w.scanDir != "" {
+		c.Note("event-signature dictionary: %d signatures (%d 16-byte constants scanned from %s/{eventlog,extract/eventlog}, %d of them not in the specification list)", len(w.sigs), w.scanned, w.scanDir, w.scannedNew)
+	} else {
+		c.Note("event-signature dictionary: %d signatures (sources of the tree under test not found: specification list only)", len(w.sigs))
+	}
+	c.Max("event-signatures-in-dictionary", int64(len(w.sigs)))
+	c.Max("event-signatures-scanned-from-tree", int64(w.scanned))
 	specs := w.specs(c)
 	ents := entries()
 	// An entry point that killed the worker process deathCap times in this shard is not called again in
@@ -638,6 +669,8 @@ func run(c *core.Ctx) {
 			}
 		}
 	}
+	var pemAccepted, pemTailRejected, sigDecoded, sigEmptyRejected bool
+	sigDecoders := map[string]bool{"TCGEventData.Unmarshal": true, "TCGPCREvent2.Unmarshal": true, "TCGPCClientPCREvent.Unmarshal": true, "CryptoAgileLog.Unmarshal": true}
 	saved := ""
 	lastSig := -1
 	saveTallies := func() {
@@ -671,7 +704,7 @@ func run(c *core.Ctx) {
 		}
 		// endorsement-shaped mutants: half of them are re-signed over the mutated payload, so that the
 		// code behind the signature check sees them too
-		if kind == "endorsement" && class != "genuine" && class != "golden-variant" && class != "big" && r.IntN(2) == 0 {
+		if kind == "endorsement" && class != "genuine" && class != "golden-variant" && class != "big" && class != "pem-bundle" && r.IntN(2) == 0 {
 			e := &epb.VMLaunchEndorsement{}
 			if proto.Unmarshal(b, e) == nil && len(e.SerializedUefiGolden) > 0 && !bytes.Equal(e.SerializedUefiGolden, w.end.SerializedUefiGolden) {
 				e.Signature = w.sign(e.SerializedUefiGolden)
@@ -710,6 +743,10 @@ func run(c *core.Ctx) {
 		}
 		if s.op == "locshape" {
 			_, _, _, e.locType = w.locShapeInput(s.a, s.b)
+		}
+		if class == "pem-bundle" { // the options under which policy derivation gets as far as the CA bundle
+			e.vmsas = []uint32{0, 1, 4}[r.IntN(3)]
+			e.withBase = false
 		}
 		if genuine { // the genuine calls are the ones that must succeed: fixed friendly parameters
 			e.vmsas, e.ram, e.forceFetch, e.manufacturer, e.overwrite, e.withBase, e.getterFails = 4, 16, false, gceManufacturer, false, false, true
@@ -786,6 +823,30 @@ func run(c *core.Ctx) {
 			} else {
 				t.MutantErr++
 			}
+			// what the grammar-directed cases are there for must have been reached
+			switch {
+			case class == "pem-bundle" && en.name == "SevPolicy":
+				pc := w.pemCases[s.a]
+				tail := len(w.pemTails[pc.tail].b)
+				if pc.target == 0 && pc.k >= 1 && pc.k <= 2 && tail == 0 && err == nil {
+					pemAccepted = true
+				}
+				if pc.target == 0 && pc.k == 2 && tail > 0 && err != nil {
+					pemTailRejected = true
+					c.Count("pem/two-certificates-then-tail-rejected-by-SevPolicy", 1)
+				}
+			case class == "signature-payload" && sigDecoders[en.name]:
+				sc := w.sigCases[s.a]
+				if sc.sig == 0 && sc.length == -1 && err == nil {
+					sigDecoded = true
+				}
+				if sc.sig == 0 && sc.length == 0 && err != nil {
+					sigEmptyRejected = true
+				}
+				if sc.length == 0 {
+					c.Count("signature-payload/empty-payload-calls", 1)
+				}
+			}
 			c.Cell("%s|%s|%s|%s", sname, class, en.name, outcome)
 		}
 		if i%211 == 0 {
@@ -805,6 +866,10 @@ func run(c *core.Ctx) {
 			}
 		}
 	}
+	c.Floor("pem-bundle/one-or-two-certificates-accepted-by-SevPolicy", pemAccepted)
+	c.Floor("pem-bundle/two-certificates-then-tail-rejected-by-SevPolicy", pemTailRejected)
+	c.Floor("signature-payload/genuine-SP800-155-payload-decoded", sigDecoded)
+	c.Floor("signature-payload/empty-SP800-155-payload-rejected", sigEmptyRejected)
 	names := make([]string, 0, len(tallies))
 	for n := range tallies {
 		names = append(names, n)
